@@ -144,6 +144,20 @@ class Harness:
                 cbs["refunc"] = CB("refunc", lambda l: str(self.lab(l)))
         return cbs
 
+    def open_traversal(self, cbs):
+        """The lazy form of a traversal entry, not yet advanced."""
+        e = self.entry
+        kw = {}
+        if "dir" in e:
+            kw["direction_sensitive"] = O.DIRS[e["dir"]]
+        if "unk" in e:
+            kw["unknown_handling"] = O.UNKS[e["unk"]]
+        if "ff_via" in cbs:
+            kw["ff_via"] = cbs["ff_via"]
+        if "ff_result" in cbs:
+            kw["ff_result"] = cbs["ff_result"]
+        return O.TRAVS[e["fn"]](self.ex.g(e.get("u")), self.ex.g(e["s"]), **kw)
+
     def call(self, cbs):
         """-> normalised outcome ({"ret":..} | {"exc":..})"""
         e = self.entry
@@ -375,6 +389,8 @@ class C13(engine.Property):
         "are enumerated exhaustively (N<=32) or first/last 8 + 16 seeded positions",
     ]
     expected_probes = [
+        "lazy-traversal-stepped-with-the-graph-inspected-between-steps",
+        "lazy-traversal-abandoned-half-way",
         "label-callback-re-enters-the-renderer",
         "mutator-cut-short-by-a-user-override-before-the-reads",
         "user-attribute-with-two-leading-underscores",
@@ -618,6 +634,10 @@ class C13(engine.Property):
                 return {"R": R, "N": counts}, self._changed(
                     "C13/graph-changed-by-fault-free-call", entry, s0, s1, None, None
                 )
+            if entry["kind"] == "trav" and entry.get("fn") in O.GEN_TRAVS and "exc" not in R:
+                v = self._suspended(st, h, entry, flag, s0, R)
+                if v is not None:
+                    return {"R": R, "N": counts}, v
             total = 0
             op_key = engine.h64(engine.jdump(op))
             for name in sorted(counts):
@@ -688,6 +708,67 @@ class C13(engine.Property):
             return {"R": _short(R), "N": counts, "faulted": total}, None
         finally:
             seams.set_flag(False)
+
+    def _suspended(self, st, h, entry, flag, s0, R):
+        """
+        A lazy traversal is a read-only operation for as long as it lives: the
+        graph must look the same to its consumer between any two of its steps,
+        after it was abandoned half-way, and the steps must add up to the
+        answer of the eager call.
+        """
+        s = st.stats
+        s["probe:lazy-traversal-stepped-with-the-graph-inspected-between-steps"] += 1
+        cbs = h.make_callbacks()
+        seams.set_flag(flag)
+        try:
+            it = h.open_traversal(cbs)
+            got = []
+            n = len(R["ret"])
+            stop_after = None if n < 2 or engine.h64(engine.jdump([entry, n])) % 3 else 1 + engine.h64(engine.jdump(entry)) % (n - 1)
+            while True:
+                seams.set_flag(flag)
+                try:
+                    got.append(st.ex.norm(next(it)))
+                except StopIteration:
+                    break
+                except Exception as exc:  # pylint: disable=broad-except
+                    seams.set_flag(False)
+                    return engine.viol(
+                        "C13/stepped-traversal-differs-from-the-same-call-consumed-at-once",
+                        {"entry": entry, "cache": flag, "at_once": _short(R), "stepped": got[:12], "then_raised": type(exc).__name__},
+                    )
+                seams.set_flag(False)
+                s["task-step"] += 1
+                sk = deep_snapshot(st.ex, flag)
+                if sk != s0:
+                    return self._changed(
+                        "C13/graph-changed-while-a-lazy-traversal-is-suspended", entry, s0, sk, None, len(got)
+                    )
+                if stop_after is not None and len(got) >= stop_after:
+                    # the consumer loses interest: the generator is closed
+                    s["probe:lazy-traversal-abandoned-half-way"] += 1
+                    s["fault:task-abandoned"] += 1
+                    it.close()
+                    break
+                if len(got) > n + 2:
+                    break
+            seams.set_flag(False)
+            del it
+            sk = deep_snapshot(st.ex, flag)
+            if sk != s0:
+                return self._changed(
+                    "C13/graph-changed-after-a-lazy-traversal-ended-or-was-abandoned", entry, s0, sk, None, len(got)
+                )
+            if stop_after is None and got != R["ret"]:
+                return engine.viol(
+                    "C13/stepped-traversal-differs-from-the-same-call-consumed-at-once",
+                    {"entry": entry, "cache": flag, "at_once": _short(R), "stepped": got[:12]},
+                )
+        except O._Missing:  # pylint: disable=protected-access
+            return None
+        finally:
+            seams.set_flag(False)
+        return None
 
     def _changed(self, kind, entry, s0, s1, name, k):
         from egsim import model as M
